@@ -48,6 +48,9 @@ func (c *Converter) ExpandUpdates(ctx context.Context, updates []*sdcpb.Update, 
 
 // expandUpdate Expands the value, in case of json to single typed value updates
 func (c *Converter) ExpandUpdate(ctx context.Context, upd *sdcpb.Update, includeKeysAsLeaf bool) ([]*sdcpb.Update, error) {
+	if upd.GetValue() == nil {
+		return nil, fmt.Errorf("update for path %s carries no value", ToXPath(upd.GetPath(), false))
+	}
 	upds := make([]*sdcpb.Update, 0)
 	if includeKeysAsLeaf {
 		// expand update path if it contains keys
@@ -374,6 +377,9 @@ func isKey(s string, cs *sdcpb.SchemaElem_Container) bool {
 }
 
 func TypedValueToYANGType(tv *sdcpb.TypedValue, schemaObject *sdcpb.SchemaElem) (*sdcpb.TypedValue, error) {
+	if tv == nil {
+		return nil, fmt.Errorf("no value to be converted")
+	}
 	switch tv.Value.(type) {
 	case *sdcpb.TypedValue_AsciiVal:
 		return ConvertToTypedValue(schemaObject, tv.GetAsciiVal(), tv.GetTimestamp())
@@ -624,6 +630,9 @@ func (c *Converter) ConvertTypedValueToProto(ctx context.Context, p *sdcpb.Path,
 }
 
 func ConvertTypedValueToYANGType(schemaElem *sdcpb.SchemaElem, tv *sdcpb.TypedValue) (*sdcpb.TypedValue, error) {
+	if tv == nil {
+		return nil, fmt.Errorf("no value to be converted")
+	}
 	switch {
 	case schemaElem.GetContainer() != nil:
 		if schemaElem.GetContainer().IsPresence {
